@@ -2,8 +2,10 @@ package vm
 
 import (
 	"fmt"
+	"go/types"
 	"math/big"
 	"sort"
+	"strings"
 
 	"github.com/formancehq/numscript/zzverif/smt"
 )
@@ -244,6 +246,19 @@ func registerZZ(vm *VM) {
 		}
 		vm.regions[str(a[0])] = toTerm(a[1])
 		return nil
+	})
+	z("Stubbed", func(vm *VM, _ *frame, a []Value) Value {
+		// every recorded call of the named stubbed function, as []interface{} of its arguments
+		name := str(a[0])
+		var out Slice
+		for k, calls := range vm.stubLog {
+			if strings.HasSuffix(k, name) {
+				for _, c := range calls {
+					out = append(out, Iface{T: types.NewSlice(types.NewInterfaceType(nil, nil).Complete()), V: c})
+				}
+			}
+		}
+		return out
 	})
 	z("Freeze", func(vm *VM, _ *frame, a []Value) Value {
 		vm.Freeze([]Value(a[0].(Slice)))
